@@ -72,20 +72,24 @@ COMBINATORS = {
 }
 
 
+POLY_ID = "POLY_ID"       # a polymorphic primitive `x ** x`
+
+
 class Family:
-    def __init__(self, prims, comps, use_combinators, nsources=3):
-        self.prims = prims                  # [(name, type)]
+    def __init__(self, prims, comps, use_combinators, nsources=3, plain=()):
+        self.prims = prims                  # [(name, type | POLY_ID)]
         self.comps = comps                  # [(name, [param types], result type, body)]
         self.use_combinators = use_combinators
         self.nsources = nsources
+        self.plain = list(plain)            # composites declared with a plain type instance instead of a schema
         self.build()
 
     def to_json(self):
-        return {"prims": self.prims, "comps": self.comps, "combinators": self.use_combinators, "nsources": self.nsources}
+        return {"prims": self.prims, "comps": self.comps, "combinators": self.use_combinators, "nsources": self.nsources, "plain": self.plain}
 
     def table(self):
         """name -> (monomorphic type used for generation, linear?)"""
-        t = {n: (ty, True) for n, ty in self.prims}
+        t = {n: ((fun(A, A) if ty == POLY_ID else ty), True) for n, ty in self.prims}
         for n in self.use_combinators:
             t[n] = (COMBINATORS[n][3], COMBINATORS[n][4])
         for n, ps, r, body in self.comps:
@@ -104,13 +108,18 @@ class Family:
         OPS = {}
         self.OPS = OPS
         for n, ty in self.prims:
-            OPS[n] = Operator(type=eval("lambda: " + ty_src(ty), {"T": self.T}), name=n)
+            if ty == POLY_ID:
+                OPS[n] = Operator(type=lambda x: x ** x, name=n)
+            else:
+                OPS[n] = Operator(type=eval("lambda: " + ty_src(ty), {"T": self.T}), name=n)
         for n in self.use_combinators:
             schema, k, body, _, _ = COMBINATORS[n]
             OPS[n] = Operator(type=eval(schema), name=n,
                 body=eval("lambda " + ", ".join(f"x{i}" for i in range(k)) + ": " + body_src(body), {"OPS": OPS}))
         for n, ps, r, body in self.comps:
-            OPS[n] = Operator(type=eval("lambda: " + ty_src(fun(*ps, r)), {"T": self.T}), name=n,
+            # declared either as a schema (`lambda: …`) or as a plain type instance
+            decl = eval(("" if n in self.plain else "lambda: ") + ty_src(fun(*ps, r)), {"T": self.T})
+            OPS[n] = Operator(type=decl, name=n,
                 body=eval("lambda " + ", ".join(f"x{i}" for i in range(len(ps))) + ": " + body_src(body), {"OPS": OPS}))
         self.lang = Language(scope={"A": Aop, "B": Bop, **OPS})
 
@@ -144,7 +153,7 @@ def family_from_json(j):
     def tt(x):
         return tuple(tt(y) for y in x) if isinstance(x, list) else x
     return Family([(n, tt(t)) for n, t in j["prims"]], [(n, [tt(p) for p in ps], tt(r), tt(b)) for n, ps, r, b in j["comps"]],
-        list(j["combinators"]), j.get("nsources", 3))
+        list(j["combinators"]), j.get("nsources", 3), j.get("plain", ()))
 
 
 def sub_ok(res, target):
@@ -202,6 +211,8 @@ def gen_family(rng, ncomps=None):
     extra = [("h1", fun(fun(A, A), A)), ("h2", fun(fun(A, A), A, A)), ("h3", fun(fun(A, A), fun(A, A), A, A)), ("k2", fun(fun(A, A, A), A, A)),
              ("ub", fun(B, A)), ("b2", fun(A, B, A))]
     prims += [e for e in extra if rng.random() < 0.75]
+    if rng.random() < 0.6:
+        prims.append(("copy", POLY_ID))
     combs = [c for c in COMBINATORS if rng.random() < 0.7]
     fam = Family(prims, [], combs)
     comps = []
@@ -220,7 +231,8 @@ def gen_family(rng, ncomps=None):
             if body is not None and (used or rng.random() < 0.2):
                 comps.append((f"c{i}", ps, r, body))
                 break
-    return Family(prims, comps, combs)
+    plain = [c[0] for c in comps if rng.random() < 0.4]
+    return Family(prims, comps, combs, plain=plain)
 
 
 def term_text(t):
